@@ -489,6 +489,10 @@ func (link *LinkBase) readFrame(b *frame.Builder) (frame.Frame, error) {
 	// Parse LinkFrame.
 	if link.encSession != nil {
 		// Unseal linked frame.
+		// A link frame holds at least its header and the MAC.
+		if len(data) < FrameOffset+FrameOverhead {
+			return nil, fmt.Errorf("link frame too small: %d bytes", len(data))
+		}
 		lf := LinkFrame(data)
 		if err := lf.Unseal(link.encSession); err != nil {
 			return nil, fmt.Errorf("unseal link frame: %w", err)
